@@ -59,8 +59,9 @@ func init() {
 	const repo = "github.com/rpcpool/yellowstone-faithful/"
 	const pk = "github.com/gagliardetto/solana-go.PublicKey"
 	for _, v := range []string{"[2]uint64", "[]*" + repo + "gsfa/linkedlog.OffsetAndSizeAndSlot", "int"} {
-		recv := "(*github.com/tidwall/hashmap.Map[" + pk + "," + v + "])."
-		externals[recv+"hash"] = func(fr *frame, args []value) value {
+		recv := "(*github.com/tidwall/hashmap.Map[" + pk + ", " + v + "])."
+		targs := "[" + pk + " " + v + "]" // go/ssa names instantiated methods "(*Map[K, V]).m[K V]"
+		externals[recv+"hash"+targs] = func(fr *frame, args []value) value {
 			stub("hashmap.Map.hash (model: 48-bit FNV-1a of the key bytes instead of xxh3 through unsafe)")
 			h := uint64(14695981039346656037)
 			for _, b := range c06KeyBytes(args[1], nil) {
@@ -69,7 +70,7 @@ func init() {
 			}
 			return int(h >> 16)
 		}
-		externals[recv+"detectHasher"] = func(fr *frame, args []value) value { return nil }
+		externals[recv+"detectHasher"+targs] = func(fr *frame, args []value) value { return nil }
 	}
 
 	// the pubkey -> (offset,size) index: compactindexsized is decided by C04; here it is an exact table
@@ -79,6 +80,10 @@ func init() {
 	c06Redirect("(*"+repo+"compactindexsized.DB).Lookup", "c06Model_DBLookup")
 	c06Redirect(repo+"compactindexsized.IsNotFound", "c06Model_IsNotFound")
 	c06Redirect("(*"+repo+"gsfa/manifest.Manifest).Close", "c06Model_ManifestClose")
+	// solana-go cannot be a source root (its package initialisation decodes base58 constants)
+	c06Redirect("(github.com/gagliardetto/solana-go.PublicKeySlice).Sort", "c06Model_PKSort")
+	c06Redirect("(github.com/gagliardetto/solana-go.PublicKeySlice).Dedupe", "c06Model_PKDedupe")
+	c06Redirect("(github.com/gagliardetto/solana-go.PublicKey).Bytes", "c06Model_PKBytes")
 
 	// verifC06Timer(exiting *atomic.Bool, ch chan T) <-chan time.Time replaces the
 	// `time.After(1 * time.Second)` of fullBufferWriter. The loop around it is
